@@ -381,3 +381,8 @@ def profiling_transparency(tier='quick'):
                 if p.hit_count != [tot, bad]:
                     _fail(fails, sc, 'hit_count-after-indexing', list(p.hit_count), [tot, bad])
     return cases, fails
+
+
+def database(tier='quick'):
+    from harness import database_standin
+    return database_standin.search(tier)
